@@ -218,4 +218,17 @@ CLAIMS = {
                    'after success and without -d keeprsp.',
         'not_decided': 'that /bin/sh reconstructs exactly one word for every name (the quote-escaping sequence needs a shell).',
     },
+    'C19': {
+        'design': '5.19',
+        'technique': 'effect closure over the whole-program call graph (from the kTools table) + dry-run guard facts + post-order dominance + exact value-set evaluation of the JSON encoder',
+        'decides': 'none of the read-only tools (resolved from the kTools initialiser) can reach a spawn or a file-system '
+                   'write/remove/mkdir/rename/truncate through any call path (planted control validates the closure); under '
+                   '-n the dry-run runner is selected, has no effects and reports no active edges, the logs are not opened for '
+                   'writing, deps extraction/recording, output stat, restat pruning and the lock file are guarded by !dry_run '
+                   '(what stays reachable — mkdir, rspfile write/remove — is listed); command listings print an edge after '
+                   'its inputs; the set of bytes EncodeJSONString copies verbatim excludes 0x00-0x1f, quote and backslash, '
+                   'compdb printers use constant formats and PrintJSONString, print one object per input and an edge only if '
+                   'it has inputs.',
+        'not_decided': 'that the listing of -n / -t commands equals the set a real build runs; JSON validity for non-UTF-8 bytes.',
+    },
 }
